@@ -216,6 +216,9 @@ class PanicChecker:
         an.visit_sites(visit)
 
     def ob(self, path, okk, detail, where, key, rule=None):
+        kinds = getattr(self, "kinds", None)
+        if kinds and not any(key.startswith(k) for k in kinds):
+            return
         full = "%s|%s" % (path, key)
         if not okk and full in self.allow:
             self.chk.ob(rule or self.rule, path, True, "allow-table: %s (%s)" % (self.allow[full], detail), where, key=key)
@@ -431,8 +434,9 @@ PRE = {"slice_index": pre_slice_index, "str_index": pre_str_index, "copy_from_sl
        "vec_index": pre_vec_index}
 
 
-def check_no_panic(chk, prog, entries, label, allow=None, param_rng=None, rule="R-PANIC", seeds=None, only=None, ctx_callees=()):
+def check_no_panic(chk, prog, entries, label, allow=None, param_rng=None, rule="R-PANIC", seeds=None, only=None, ctx_callees=(), kinds=None):
     pc = PanicChecker(chk, prog, rule=rule, allow=allow, param_rng=param_rng, seeds=seeds)
+    pc.kinds = kinds
     pc.only = only
     pc.ctx_callees = set(ctx_callees)
     return pc.run(entries, label)
